@@ -274,9 +274,12 @@ struct C10
         Req rq = op.rq;
         rq.p = p;
         rq.n = (std::size_t)n;
+        // the view is built by the constructor, by sbepp::make_view or by sbepp::make_const_view in turn
+        rq.ctor = (int)((opi + n) % 3);
         Res rs;
         Outcome o = call_driver(*drv, rq, rs);
         sim::stats().count("c10.ops");
+        sim::stats().count(rq.ctor == 0 ? "c10.view_from_constructor" : rq.ctor == 1 ? "c10.view_from_make_view" : "c10.view_from_make_const_view_or_constructor");
         fp->add((u64)o.kind);
         const bool in_bounds = converse && op.extent <= n;
         sim::stats().tuple(std::string(drv->shape->name) + "|" + target_name(op.rq) + "|" + sim::out_name(o.kind) + "|" + (in_bounds ? "fits" : "cut"));
@@ -302,6 +305,7 @@ struct C10
             Req r2 = op.rq;
             r2.p = q;
             r2.n = (std::size_t)n;
+            r2.ctor = rq.ctor;
             Res rs2;
             Outcome o2 = call_driver(*drv, r2, rs2);
             // a late check is one that fires inside the *same* accessor call that made the access: the
